@@ -59,9 +59,9 @@ func freePort() (string, error) {
 }
 
 type c39Servers struct {
-	tcp, ws       *mqtt.Server
+	tcp, ws         *mqtt.Server
 	tcpAddr, wsAddr string
-	tcpLog, wsLog *readLog
+	tcpLog, wsLog   *readLog
 }
 
 func startC39() (*c39Servers, error) {
@@ -258,12 +258,12 @@ func (t *wsT) recv() ([]byte, error) {
 func (t *wsT) close() { t.c.Close() }
 
 type c39Result struct {
-	replies     []byte
-	nReplies    int
-	closed      bool // the broker ended the connection after the final message
-	starved     bool // expected replies did not arrive within the watchdog
-	decodeErr   error
-	descr       []string
+	replies   []byte
+	nReplies  int
+	closed    bool // the broker ended the connection after the final message
+	starved   bool // expected replies did not arrive within the watchdog
+	decodeErr error
+	descr     []string
 }
 
 // runC39 plays the session: all segments before the final DISCONNECT, waits until the replies owed
